@@ -113,8 +113,13 @@ CHECKS['C07'] = dict(
     text='CLAUSE decided (the three renderings are one canonical string): for all 19 scales x sign classes of the coefficient, Display::fmt under the default formatter (= to_string(), which is core\'s blanket impl), String::from(Decimal) and the text between "Dec!(" and ")" of Debug::fmt hand the same sequence of pieces to core::fmt: "-" iff x < 0, the decimal rendering of int, and iff p > 0 a "." and frac zero-padded to width p, with int >= 0, 0 <= frac < 10^p and int*10^p + frac = |x|. NOT decided: that parsing this string returns the same Decimal (depends on the value semantics of the parser, which C06 does not decide) and the serde-as-str clause.',
     note=TB + 'core::fmt: integer Display (no leading zeros, "-" + |v|), zero padding to a width, pad_integral under the default formatter, the template encoding of fmt::Arguments of the nightly used for extraction.')
 
+CHECKS['C12'] = dict(
+    category='proof', design_ref='DESIGN.md section 12.12 (as built; section 7 listed C12 as not applicable before the cell decomposition by bit length was tried)',
+    technique=ABSINT + ': one cell per float type x scale x bit length of the coefficient x sign makes leading_zeros, all shifts and the divisor concrete; guard / sticky bits and the quotient\'s binade fork; the returned bit pattern is compared with the IEEE 754 encoding of RoundHalfEven(v * 2^(F-e)) by the fact-based RoundSpec oracle; polyhedral (exact LP) bounds for combining quotient / remainder facts',
+    text='For f64 and f32, every scale 1..18, every bit length 1..127 of |coefficient| and both signs (thorough: all 2 x 18 x 127 x 2 cells; quick: boundary scales and bit lengths) - i.e. every Decimal with fractional digits - each path of <fN as From<Decimal>>::from decides the binade e of v = |coeff| / 10^p and returns the bit pattern sign | (q + ((e + bias - 1) << F)) with q = RoundHalfEven(v * 2^(F-e)): the nearest float, ties to even, including the carry into the exponent field; no panic edge (shift amounts, overflow checks). Values with 0 fractional digits and zero are converted by the primitive cast of the exact coefficient (its rounding is the language\'s: trusted).',
+    note=TB + 'IEEE 754 binary32 / binary64 encoding as written in the oracle; Rust int-to-float `as` casts (nearest even, 0 -> +0.0).')
+
 NOT_APPLICABLE = {
-    'C12': 'Bit-exact float rounding of Decimal -> f64/f32 over 2^127 x 19 inputs: no sound static abstract domain in reach relates the produced bit pattern to the nearest float; see DESIGN.md section 7.',
     'C13': 'f64/f32 -> Decimal quantifies over all bit patterns through a data-dependent long-division loop with a non-linear invariant; not decidable by the static machinery; see DESIGN.md section 7.',
 }
 
